@@ -11,7 +11,8 @@ scratch copy of /repo's HEAD under /dev/shm (never in /repo or /verif), removed 
   4. the named checks (default: the property's own) are run against the patched copy (EMD_REPO).
 Results are written to /verif/seeded/<seed_id>/meta.json next to copies of the patch, demo and notes.
 
-  tools/seeded.py rerun [seed_id ...] [--tier quick]    re-evaluate kept seeds against the current checks
+  tools/seeded.py rerun [seed_id ...] [--tier quick] [--fast]   re-evaluate kept seeds against the current checks
+                                                      (--fast: patch + checks only, suite and demo not repeated)
 """
 import json
 import os
@@ -59,7 +60,7 @@ def run_checks(tree, props, tier, seed=0, shards=None):
     return res
 
 
-def evaluate(patch, demo, props, tier):
+def evaluate(patch, demo, props, tier, fast=False):
     meta = {}
     clean = scratch_copy()
     pat = scratch_copy()
@@ -71,10 +72,11 @@ def evaluate(patch, demo, props, tier):
             meta['patch_error'] = (r.stdout + r.stderr)[-400:]
             return meta
         meta['files_touched'] = sorted(set(l[6:].strip() for l in open(patch) if l.startswith('+++ b/')))
-        b = sh([os.path.join(VERIF, 'tools', 'baseline.sh'), pat])
-        meta['baseline_on_patched'] = b.stdout.strip().splitlines()[:3]
-        meta['baseline_ok'] = b.returncode == 0
-        if demo and os.path.exists(demo):
+        if not fast:
+            b = sh([os.path.join(VERIF, 'tools', 'baseline.sh'), pat])
+            meta['baseline_on_patched'] = b.stdout.strip().splitlines()[:3]
+            meta['baseline_ok'] = b.returncode == 0
+        if not fast and demo and os.path.exists(demo):
             rc0, o0 = run_demo(demo, clean)
             rc1, o1 = run_demo(demo, pat)
             meta['demo_pristine'] = {'exit': rc0, 'tail': o0}
@@ -95,6 +97,9 @@ def main():
         i = a.index('--tier')
         tier = a[i + 1]
         del a[i:i + 2]
+    fast = '--fast' in a          # rerun only: apply the patch and run the checks (suite and demonstration were confirmed when the seed was kept)
+    if fast:
+        a.remove('--fast')
     props = None
     if '--props' in a:
         i = a.index('--props')
@@ -128,7 +133,7 @@ def main():
                 continue
             meta = json.load(open(mp))
             ps = props or list(meta.get('checks', {})) or [meta['property']]
-            new = evaluate(os.path.join(dst, 'patch.diff'), os.path.join(dst, 'demo.py'), ps, tier)
+            new = evaluate(os.path.join(dst, 'patch.diff'), os.path.join(dst, 'demo.py'), ps, tier, fast=fast)
             meta.update(new)
             meta['tier_run'] = tier
             meta['repo_head'] = sh('git -C /repo rev-parse --short HEAD').stdout.strip()
